@@ -156,6 +156,25 @@ func (s *Set) M__and__(other Object) (Object, error) {
 	return ret, nil
 }
 
+// inPlace applies a binary set operator and stores the result in s, so
+// that every alias of s sees it
+func (s *Set) inPlace(op func(Object) (Object, error), other Object) (Object, error) {
+	res, err := op(other)
+	if err != nil {
+		return nil, err
+	}
+	if r, ok := res.(*Set); ok {
+		s.items = r.items
+		return s, nil
+	}
+	return res, nil
+}
+
+func (s *Set) M__ior__(other Object) (Object, error)  { return s.inPlace(s.M__or__, other) }
+func (s *Set) M__iand__(other Object) (Object, error) { return s.inPlace(s.M__and__, other) }
+func (s *Set) M__isub__(other Object) (Object, error) { return s.inPlace(s.M__sub__, other) }
+func (s *Set) M__ixor__(other Object) (Object, error) { return s.inPlace(s.M__xor__, other) }
+
 func (s *Set) M__or__(other Object) (Object, error) {
 	ret := NewSet()
 	b, ok := other.(*Set)
